@@ -177,6 +177,63 @@ struct Hist {
     J.line(o.str());
   }
 
+  // "Two polyhedra denoting the same set are indistinguishable": rebuild the set of slot s in
+  // another slot by a different route (from its own reported description, in a shuffled order,
+  // at once or incrementally with observations in between), then compare both ways.
+  void twin(int s) {
+    int d = r.below(4); if (d == s) d = (s + 1) % 4;
+    const Polyhedron& P = *slot[s].p;
+    dimension_type n = P.space_dimension();
+    Topology t = nnc ? NOT_NECESSARILY_CLOSED : NECESSARILY_CLOSED;
+    std::unique_ptr<Polyhedron> cp(clone(P));       // descriptions are read from a copy
+    OS o; o << "new " << d << " " << (nnc ? "N" : "C") << " " << n << " ";
+    bool from_cons = r.chance(1, 2) || cp->is_empty();
+    if (from_cons) {
+      std::vector<Constraint> rows;
+      const Constraint_System& cs = r.chance(1, 2) ? cp->minimized_constraints() : cp->constraints();
+      for (Constraint_System::const_iterator i = cs.begin(); i != cs.end(); ++i) rows.push_back(*i);
+      for (size_t i = rows.size(); i > 1; --i) std::swap(rows[i - 1], rows[r.below((unsigned)i)]);
+      Constraint_System all; if (n > 0) all.insert(0 * Variable(n - 1) >= -1);
+      for (size_t i = 0; i < rows.size(); ++i) all.insert(rows[i]);
+      o << "cons"; put_cs(o, all, n); J.line(o.str());
+      slot[d].p.reset(make(t, n, UNIVERSE));
+      bool incremental = r.chance(1, 2);
+      for (size_t i = 0; i < rows.size(); ++i) {
+        slot[d].p->add_constraint(rows[i]);
+        if (incremental && r.chance(1, 2)) {
+          if (r.chance(1, 2)) (void) slot[d].p->minimized_generators(); else (void) slot[d].p->generators();
+        }
+      }
+    } else {
+      std::vector<Generator> rows;
+      const Generator_System& gs = r.chance(1, 2) ? cp->minimized_generators() : cp->generators();
+      for (Generator_System::const_iterator i = gs.begin(); i != gs.end(); ++i) rows.push_back(*i);
+      // a point must come first
+      size_t pt = 0; for (size_t i = 0; i < rows.size(); ++i) if (rows[i].is_point()) { pt = i; break; }
+      std::swap(rows[0], rows[pt]);
+      for (size_t i = rows.size(); i > 2; --i) std::swap(rows[i - 1], rows[1 + r.below((unsigned)(i - 1))]);
+      Generator_System all; for (size_t i = 0; i < rows.size(); ++i) all.insert(rows[i]);
+      o << "gens"; put_gs(o, all, n); J.line(o.str());
+      slot[d].p.reset(make(t, n, EMPTY));
+      bool incremental = r.chance(1, 2);
+      for (size_t i = 0; i < rows.size(); ++i) {
+        slot[d].p->add_generator(rows[i]);
+        if (incremental && r.chance(1, 2)) {
+          if (r.chance(1, 2)) (void) slot[d].p->minimized_constraints(); else (void) slot[d].p->constraints();
+        }
+      }
+    }
+    if (r.chance(1, 2)) (void) slot[s].p->minimized_constraints();
+    if (r.chance(1, 2)) (void) slot[d].p->minimized_generators();
+    const Polyhedron& X = *slot[s].p; const Polyhedron& Y = *slot[d].p;
+    { OS q; q << "q " << s << " equals " << d << " " << (X == Y); J.line(q.str()); }
+    { OS q; q << "q " << d << " equals " << s << " " << (Y == X); J.line(q.str()); }
+    { OS q; q << "q " << s << " contains " << d << " " << X.contains(Y); J.line(q.str()); }
+    { OS q; q << "q " << d << " contains " << s << " " << Y.contains(X); J.line(q.str()); }
+    { OS q; q << "q " << s << " strictly_contains " << d << " " << X.strictly_contains(Y); J.line(q.str()); }
+    status_line(s); status_line(d);
+  }
+
   // one mutator; returns false if nothing was done
   void mutate(bool c02) {
     int s = pick_live();
@@ -185,6 +242,7 @@ struct Hist {
     dimension_type n = P.space_dimension();
     OS o;
     unsigned k = r.below(c02 ? 34 : 22);
+    if (r.chance(1, 7)) { twin(s); return; }
     try {
       switch (k) {
       case 0: case 1: { Constraint_System cs = rnd_cs(r, n, nnc, 2, big);
